@@ -56,6 +56,11 @@ def sid_to_sid(sid: str | Sid) -> Sid:
         new_sid._init(string=string, type=_type, fields=fields)
         return new_sid
 
+    # a query can only be applied to a typed Sid or to an empty string: on an untyped string it stays in the string
+    elif string and not fields:
+        new_sid._init(string="{}?{}".format(string, query), type=None, fields=None)
+        return new_sid
+
     # applying the query (applying the query may update the type)
     else:
         string, _type, fields = apply_query(string, query=query, type=_type, fields=fields)
